@@ -748,6 +748,76 @@ def wipes(rep, uc, ug):
     r_wipe.check_wipe(rep, fh, uc, "local ctx.state (key material)", obj, mention)
 
 
+def init_defines(rep, u, init="gost28147_init", ctxp="ctx", rec="gost28147_context_s", tag=""):
+    """every context field (and constant element) that another routine of the header reads before writing is written by
+    init on all of its success paths - in this build configuration (a running MAC left over from an earlier use or from
+    uninitialised storage otherwise seeds the next one)"""
+    fi = u.fn(init)
+    if fi is None or rec not in u.records:
+        raise driver.AnalysisBroken("anchor %s / %s vanished" % (init, rec))
+    rep.functions.add(init)
+    fields = [f["n"] for f in u.records[rec]["fields"]]
+
+    def fld(n):
+        """(field, const index or '*') of an access ctx->F, ctx->F[c], ctx->F[..][..]"""
+        n = core.strip_casts(n)
+        idx = []
+        while n is not None and n.get("k") == "sub":
+            idx.append(const_val(n["i"]))
+            n = core.strip_casts(n["b"])
+        if n is not None and n.get("k") == "mem" and n.get("rec") == rec:
+            return n["f"], (idx[-1] if len(idx) == 1 and idx[-1] is not None else "*")
+        return None
+    # reads elsewhere
+    need_ = {}
+    for fn in u.function_list:
+        if fn.relfile() != GO or not fn.has_cfg or fn.name == init or fn.name.endswith("self_test"):
+            continue
+        for pos, root, x, ps in fn.nodes():
+            if x.get("k") not in ("mem", "sub"):
+                continue
+            if ps and ps[-1].get("k") == "sub" and core.strip_casts(ps[-1].get("b")) is x:
+                continue                      # inner part of a longer access path
+            r = fld(x)
+            if r is None:
+                continue
+            par = ps[-1] if ps else None
+            pure_store = par is not None and par.get("k") == "bin" and par["op"] == "=" and core.strip_casts(par["x"]) is x
+            if not pure_store:
+                need_.setdefault(r, (fn.name, x.get("ln")))
+    # writes of init that dominate every success return
+    succ = r_mpt.success_returns(fi)
+    if not succ:
+        raise driver.AnalysisBroken("%s has no success return" % init)
+    wrote = set()
+    for pos, root, x, ps in fi.nodes():
+        tgt = None
+        if x.get("k") == "bin" and x["op"] == "=":
+            tgt = x["x"]
+        elif x.get("k") == "call" and x.get("fn") in ("memcpy", "memset", "memmove", "mem_bzero", "bzero"):
+            tgt = x["args"][0]
+        if tgt is None:
+            continue
+        r = fld(tgt)
+        if r is None:
+            continue
+        loops = fi.loops()
+        inloop = any(pos[0] in body for body in loops.values())
+        dom = all(fi.pos_dominates(pos, sp) for sp in succ) if not inloop else \
+            all(all(fi.dominates(h, sp[0]) for sp in succ) for h, body in loops.items() if pos[0] in body)
+        if dom:
+            wrote.add(r)
+    n = 0
+    for (f, i), (who, ln) in sorted(need_.items(), key=str):
+        n += 1
+        ok = (f, i) in wrote or (f, "*") in wrote or (i == "*" and any(w[0] == f for w in wrote))
+        desc = "%s%s: %s->%s%s, read by %s (line %s), is defined by every successful %s" % (init, tag, ctxp, f, "" if i == "*" else "[%s]" % i, who, ln, init)
+        (rep.proved if ok else rep.violated)("R-INIT", fi, "defined:%s%s%s" % (f, "" if i == "*" else "[%s]" % i, tag), desc,
+                                             "" if ok else "no write on the success path in this configuration: the value left in the "
+                                             "context by an earlier use (or by the allocator) is used")
+    return n
+
+
 def run(rep, tier):
     specs = [common.hdr_unit("chacha", "crypto/cipher/chacha.h"), common.hdr_unit("gost28147", "crypto/cipher/gost28147.h"),
              common.hdr_unit("gost28147:small", "crypto/cipher/gost28147.h", ("GOST28147_USE_SMALL_TABLES",))]
@@ -771,6 +841,7 @@ def run(rep, tier):
     gost_bulk(rep, ug)
     gost_bulk_small = None
     wipes(rep, uc, ug)
+    rep.floor("context fields defined by init", init_defines(rep, ug) + init_defines(rep, ugs, tag=" [small tables]"), 8)
     from rules import r_tbaa
     n_al = 0
     for u_ in (uc, ug, ugs):
